@@ -1,0 +1,52 @@
+//! Verification hooks. Compiled only with `--cfg gm_rs_verif`; the default build does not
+//! contain this module.
+//!
+//! Public wrappers around the crate-private ZUC state and step functions so that an external
+//! monitor can start the cipher from an arbitrary register state and compare single steps with
+//! a reference model.
+use crate::ZUC;
+
+/// Cipher object with the given LFSR cells and FSM registers (no initialisation rounds).
+pub fn from_state(s: [u32; 16], r1: u32, r2: u32) -> ZUC {
+    ZUC { s, r1, r2, x: [0; 4] }
+}
+
+/// (LFSR cells, R1, R2)
+pub fn state(z: &ZUC) -> ([u32; 16], u32, u32) {
+    (z.s, z.r1, z.r2)
+}
+
+pub fn lfsr_init_step(z: &mut ZUC, u: u32) {
+    z.lfsr_with_initialization_mode(u)
+}
+
+pub fn lfsr_work_step(z: &mut ZUC) {
+    z.lfsr_with_work_mode()
+}
+
+/// BitReconstruction followed by F; returns (W, X0..X3).
+pub fn br_f(z: &mut ZUC) -> (u32, [u32; 4]) {
+    z.bit_reconstruction();
+    let w = z.f();
+    (w, z.x)
+}
+
+pub fn add31(a: u32, b: u32) -> u32 {
+    crate::add31(a, b)
+}
+
+pub fn rot31(a: u32, k: u32) -> u32 {
+    crate::rot31(a, k)
+}
+
+pub fn l1(x: u32) -> u32 {
+    crate::l1(x)
+}
+
+pub fn l2(x: u32) -> u32 {
+    crate::l2(x)
+}
+
+pub fn sbox(x: u32) -> u32 {
+    crate::sbox(x)
+}
